@@ -115,6 +115,24 @@ func c06Check(u univ.Universe, root [2]string, st *c06Stats) (fails []string, ou
 	fail := func(clause, msg string) {
 		fails = append(fails, npmTagRE.ReplaceAllString(clause+": "+msg+"\n  graph: "+dumpGraphFull(g), ""))
 	}
+	// a requirement listed twice (plainly and under an alias) is two declarations: spell them out
+	for _, v := range u.Vers {
+		for _, r := range v.Reqs {
+			if r.TwinAlias {
+				x := univ.Universe{Sys: u.Sys}
+				for _, w := range u.Vers {
+					var rs []univ.Req
+					for _, q := range w.Reqs {
+						rs = append(rs, q.Expanded()...)
+					}
+					w.Reqs = rs
+					x.Vers = append(x.Vers, w)
+				}
+				u = x
+				break
+			}
+		}
+	}
 	n := len(g.Nodes)
 	out := make([][]resolve.Edge, n)
 	for _, e := range g.Edges {
